@@ -204,6 +204,9 @@ _DN = {"y": "years", "mo": "months", "w": "weeks", "d": "days", "h": "hours", "m
 def _dur_new(a, pre):
     kw = {_DN[k]: v for k, v in a["args"].items() if v or a.get("explicit0")}
     d = P().duration(**kw) if a.get("entry") == "duration" else P().Duration(**kw)
+    # the derived components are computed lazily and cached: read them in the order the event asks for first
+    for name in a.get("first", ()):
+        getattr(d, name)
     return proj.enc_duration_full(d)
 
 
